@@ -13,7 +13,7 @@ use proptest::strategy::Strategy;
 use serde_json::Value;
 use std::collections::BTreeSet;
 
-pub const RULE: &str = "proptest-generated in-memory workspaces biased to colliding names (pool of 3; same name in several conftests, imported modules, plugin and third-party files; override patterns; cycles; scope chains). The observable snapshot (go-to at every usage, references per definition, available fixtures per file, scope mismatches, full normalised cycle list with anchors, unused list) after analysing the files in path order is compared with the snapshot after 3 generated permutations; in a second sub-check small workspaces (<= 6 files) are compared under ALL their analysis orders (up to 720). Scan tier: the same kind of workspace widened by up to 40 extra test modules is materialised on disk and scanned by the real parallel scan in this process and in 5 child processes with RAYON_NUM_THREADS 1/2/3/5/8; snapshots and the sets of indexed files must agree, and every test module / conftest.py of the tree must be indexed. Real-world tier: installed packages' test suites are scanned in place by child processes with 1, 3 and 8 workers; observations must be identical. Non-trivial = some name has >=2 definitions (scan tier: and >=9 scanned files); distinct = distinct workspace specs.";
+pub const RULE: &str = "proptest-generated in-memory workspaces biased to colliding names (pool of 3; same name in several conftests, imported modules, plugin and third-party files; override patterns; cycles; scope chains). The observable snapshot (go-to at every usage, references per definition, available fixtures per file, scope mismatches, full normalised cycle list with anchors, unused list) after analysing the files in path order is compared with the snapshot after 3 generated permutations; in a second sub-check small workspaces (<= 6 files) are compared under ALL their analysis orders (up to 720). Scan tier: the same kind of workspace widened by up to 40 extra test modules is materialised on disk and scanned by the real parallel scan in this process and in 5 child processes with RAYON_NUM_THREADS 1/2/3/5/8; snapshots and the sets of indexed files must agree, and every test module / conftest.py of the tree must be indexed. Real-world tier: installed packages' test suites are scanned in place by child processes with 1, 3 and 8 workers; observations must be identical. Non-trivial = some name has >=2 definitions (scan tier: and >=9 scanned files); distinct = distinct workspace specs. One scan case in eight is flooded: 2001 fixture-free test modules are added, so the scan caches more than 2000 files and the cache limit evicts a quarter of the entries (which ones depends on hash seed and schedule); the cached-file set is then left out of the observation and the queried files are listed from the disk.";
 pub const ASSUMPTIONS: &[&str] = &[
     "the parallel scan affects the index only through the order in which per-file analyses append to the per-name vectors (interleavings inside one analysis are C09's business)",
     "undeclared-fixture findings are excluded (the statement does not list them; they depend on what was indexed at analysis time by design)",
@@ -22,6 +22,7 @@ pub const ASSUMPTIONS: &[&str] = &[
 
 pub const KF_PICK: &str = "KF-C08-first-registered-pick";
 pub const KF_DIAG: &str = "KF-C08-first-definition-diagnostics";
+pub const KF_EVICT: &str = "KF-C08-import-scan-starts-from-evictable-cache";
 
 pub fn cfg() -> GenCfg {
     GenCfg { names: 3, self_dep_bias: 2, allow_dups_in_file: false, ..GenCfg::default() }
@@ -250,6 +251,35 @@ pub struct ScanCase {
     /// extra test modules (directory pick, items): the scan's work list gets long enough for every
     /// worker count to split it differently
     pub extra: Vec<(u8, Vec<Item>)>,
+    /// 2001 fixture-free test modules are added under `zz_fill/`: the scan caches more than 2000 files, so the
+    /// cache limit evicts a quarter of the entries - which ones depends on hash seed and worker schedule
+    #[serde(default)]
+    pub flood: bool,
+}
+
+fn flood_dir(root: &str) -> String {
+    format!("{}/zz_fill", root)
+}
+
+/// every .py file of the materialised workspace (scratch base of `root`) outside the filler directory
+fn py_files_outside_fill(root: &str) -> Vec<String> {
+    fn walk(d: &std::path::Path, out: &mut Vec<String>) {
+        let Ok(rd) = std::fs::read_dir(d) else { return };
+        for e in rd.flatten() {
+            let p = e.path();
+            if p.is_dir() {
+                if p.file_name().map(|n| n != "zz_fill").unwrap_or(true) {
+                    walk(&p, out);
+                }
+            } else if p.extension().map(|x| x == "py").unwrap_or(false) {
+                out.push(p.to_string_lossy().to_string());
+            }
+        }
+    }
+    let mut out = vec![];
+    walk(std::path::Path::new(root), &mut out);
+    out.sort();
+    out
 }
 
 pub fn widen(c: &ScanCase) -> WorkspaceSpec {
@@ -279,8 +309,15 @@ fn scan_snap_opts(root: &str) -> SnapOpts {
 pub fn scan_observation(root: &str) -> Value {
     let db = pytest_language_server::FixtureDatabase::new();
     db.scan_workspace(std::path::Path::new(root));
-    let mut s = snapshot(&db, &scan_snap_opts(root));
-    let files: Vec<String> = cached_files(&db).iter().map(|p| rel(root, p)).collect();
+    // a flooded workspace: which files are still cached is not an observable (any quarter may have been
+    // evicted), so the queried files are listed from the disk and the cached set is left out
+    let flooded = std::path::Path::new(&flood_dir(root)).is_dir();
+    let mut opts = scan_snap_opts(root);
+    if flooded {
+        opts.query_files = Some(py_files_outside_fill(root));
+    }
+    let mut s = snapshot(&db, &opts);
+    let files: Vec<String> = if flooded { vec![] } else { cached_files(&db).iter().map(|p| rel(root, p)).collect() };
     s["files"] = serde_json::json!(files);
     s
 }
@@ -305,8 +342,18 @@ pub fn check_scan(c: &ScanCase, info: &mut CaseInfo) -> Outcome {
         Ok(d) => d,
         Err(e) => return Outcome::Fail(format!("cannot materialise: {}", e)),
     };
-    let scanned: Vec<String> = ws.files.iter().filter(|f| f.loc.is_test() || f.loc.is_conftest()).map(|f| f.loc.rel()).collect();
-    let n = scanned.len();
+    if c.flood {
+        let d = flood_dir(&disk.root);
+        if std::fs::create_dir_all(&d).is_err() {
+            return Outcome::Fail("cannot materialise the filler directory".into());
+        }
+        for i in 0..2001 {
+            let _ = std::fs::write(format!("{}/test_fill_{:04}.py", d, i), "def test_fill():\n    pass\n");
+        }
+        info.classes.push("flooded scan (> 2000 files, cache eviction)".into());
+    }
+    let scanned: Vec<String> = if c.flood { vec![] } else { ws.files.iter().filter(|f| f.loc.is_test() || f.loc.is_conftest()).map(|f| f.loc.rel()).collect() };
+    let n = ws.files.iter().filter(|f| f.loc.is_test() || f.loc.is_conftest()).count();
     info.classes.push(format!("scan files {}", if n < 9 { "<9" } else if n < 17 { "9-16" } else if n < 33 { "17-32" } else { ">=33" }));
     if n >= 9 && m.all_names().iter().any(|x| m.count_defs(x) >= 2) {
         info.nontrivial = true;
@@ -340,6 +387,20 @@ pub fn check_scan(c: &ScanCase, info: &mut CaseInfo) -> Outcome {
         }
         let fo = flatten_obs(&other);
         let what = format!("scan with {} worker thread(s) in a separate process vs in-process scan ({} scannable files)", workers, n);
+        if c.flood {
+            // recorded finding: the import-following phase of the scan starts from the entries of file_cache, of
+            // which a quarter (any quarter) was evicted during the main phase; modules reached only through the
+            // imports / pytest_plugins of an evicted file are then not analysed. Signature: every differing entry
+            // concerns a name defined in a module that is neither a test module nor a conftest.
+            let reached: BTreeSet<String> = m.all_defs().into_iter().filter(|d| !(m.ws.files[d.file].loc.is_test() || m.ws.files[d.file].loc.is_conftest())).map(|d| m.def_tok(d).name.clone()).collect();
+            let diff: Vec<&(String, Vec<String>, String)> = fb.symmetric_difference(&fo).collect();
+            if !diff.is_empty() && diff.iter().all(|(sec, names, entry)| sec != "files" && (names.iter().any(|x| reached.contains(x)) || reached.iter().any(|x| entry.contains(x.as_str())))) {
+                known.insert(KF_EVICT.to_string());
+                info.known_trigger = true;
+                detail.get_or_insert(format!("{}: `{}` answer differs: {}", what, diff[0].0, diff[0].2));
+                continue;
+            }
+        }
         if let Some(fail) = attribute_diff(&m, &s_pick, &s_diag, &fb, &fo, &what, &mut known, &mut detail, info) {
             return fail;
         }
@@ -411,7 +472,7 @@ pub fn check_corpus_scan(dir: &str, info: &mut CaseInfo) -> Outcome {
 
 pub fn scan_case() -> impl Strategy<Value = ScanCase> {
     use proptest::collection::vec;
-    (workspace(cfg()), vec((proptest::num::u8::ANY, crate::gen::items(&GenCfg { max_items: 2, ..cfg() }, crate::gen::FileRole::Test)), 0..=40)).prop_map(|(ws, extra)| ScanCase { ws, extra })
+    (workspace(cfg()), vec((proptest::num::u8::ANY, crate::gen::items(&GenCfg { max_items: 2, ..cfg() }, crate::gen::FileRole::Test)), 0..=40), proptest::prop_oneof![7 => proptest::strategy::Just(false), 1 => proptest::strategy::Just(true)]).prop_map(|(ws, extra, flood)| ScanCase { ws, extra, flood })
 }
 
 pub fn run(ctx: &Ctx) {
